@@ -25,7 +25,7 @@ static const struct { const char *name; size_t off; } g_fields[] = {
 	F(op), F(op_count), F(efail_node), F(efail_at), F(efail_rest), F(efail_errno), F(eburst_at), F(eburst_k), F(eburst_val),
 	F(ntasks), F(preempt_mean), F(pct_d),
 	F(victim), F(extra_roots), F(tz), F(early_close),
-	F(afail_node), F(afail_at), F(afail_rest),
+	F(afail_node), F(afail_at), F(afail_rest), F(seg_late),
 };
 #define NFIELDS (sizeof(g_fields) / sizeof(g_fields[0]))
 
